@@ -210,7 +210,11 @@ Proof.
   destruct Hsl0 as (Hf0 & Hd0 & Hm0 & Hu0 & Hin0 & Htg0).
   destruct (sysloc_builders_sim ni nt bs sl0 Hok HI0 HT0 Hs0)
     as (sl & Eb & HI & HT & Hs & Hd & Hm & Hu & Hf & Hin & Htg & Hce).
+  assert (Hlen32 : (sysloc_len sl <? U32) = true).
+  { apply N.ltb_lt. unfold sysloc_len, U32. unfold shape_ok, nI, nT in Hs. unfold nI in HI. unfold nT in HT.
+    rewrite Hs, HI, HT. lia. }
   cbn [hmat_addition]. rewrite E0. cbn [option_bind]. rewrite Eb. cbn [option_bind].
+  rewrite Hlen32. cbn [assert option_bind].
   eexists. split; [reflexivity|]. cbn [hmat_add a_bytes].
   (* the three vectors are the lists the specification writes *)
   assert (Ein : sl_inits sl = map (fun i => last_slot 3 i bs 0) (seqN ni)).
